@@ -230,22 +230,42 @@ func c03(c *core.Ctx, r *core.Report) {
 			s := wr.Run
 			key := core.FuncName(fn) + "#run"
 			pos := an.Pos(c, s.Instr)
-			root := s.Root()
-			loop, _ := an.NaturalLoopOf(root.Block())
-			var next *ssa.Call
+			// the allocation of this pass: an allocator call that precedes the run and, in the frame where the two
+			// part ways, lies in the same innermost loop (a helper holding both has no loop of its own)
+			samePass := func(a, b an.Event) bool {
+				ca, cb := an.Chain(a), an.Chain(b)
+				for i := 0; i < len(ca) && i < len(cb); i++ {
+					if ca[i] == cb[i] {
+						continue
+					}
+					la, _ := an.NaturalLoopOf(ca[i].Block())
+					lb, _ := an.NaturalLoopOf(cb[i].Block())
+					if (la == nil) != (lb == nil) {
+						return false
+					}
+					if la == nil {
+						return i > 0 // both outside any loop: fine inside a helper, not in the worker's own frame
+					}
+					return la[cb[i].Block()] && lb[ca[i].Block()]
+				}
+				return false
+			}
+			var nextEv *an.Event
 			for _, e := range eventsBefore(fn, s, func(_ ssa.CallInstruction, t *ssa.Function) bool { return isNextIteration(t) }) {
-				if e.Frame.Parent == nil && (loop == nil || loop[e.Instr.Block()]) {
-					next, _ = e.Instr.(*ssa.Call)
+				e := e
+				if samePass(e, s) {
+					nextEv = &e
 				}
 			}
-			if loop == nil || next == nil {
+			if nextEv == nil {
 				r.Violation(key, pos, "the runner call is not preceded in the same loop iteration by an id allocation: iterations can run without an id or reuse one")
 				continue
 			}
+			next, _ := nextEv.Instr.(*ssa.Call)
 			// error tested nil
 			guarded := false
-			for _, g := range an.GuardsOf(root.Block()) {
-				if errNilGuard(g, next) {
+			for _, g := range an.GuardsOfEvent(s) {
+				if errNilGuard(g.Guard, next) {
 					guarded = true
 				}
 			}
@@ -257,7 +277,7 @@ func c03(c *core.Ctx, r *core.Report) {
 			var reset *an.Event
 			for _, e := range eventsBefore(fn, s, func(_ ssa.CallInstruction, t *ssa.Function) bool { return isMethod(t, testingPkg, "T", "Reset") }) {
 				e := e
-				if an.Dominates(next, e.Root()) || e.Root() == ssa.Instruction(next) {
+				if an.Before(*nextEv, e) {
 					reset = &e
 				}
 			}
@@ -265,21 +285,23 @@ func c03(c *core.Ctx, r *core.Report) {
 				r.Violation(key, pos, "no T.Reset between the id allocation and the runner call: the iteration observes a stale id and state")
 				continue
 			}
-			stateDesc := an.D().Of(s.Translate(s.Call().Common().Args[1]))
-			tDesc := an.D().Of(reset.Translate(reset.Call().Common().Args[0]))
-			if ld, ok := reset.Call().Common().Args[0].(*ssa.UnOp); ok {
-				if fa, ok := ld.X.(*ssa.FieldAddr); ok {
-					tDesc = an.D().Of(reset.Translate(fa.X)) + "." + an.FieldOfAddr(fa).Name()
-				}
+			stateV := an.EventFV(s, s.Call().Common().Args[1]).Resolve(nil).V
+			stateDesc := an.D().Of(stateV)
+			tV := an.EventFV(*reset, reset.Call().Common().Args[0]).Resolve(nil)
+			tDesc := an.D().Of(tV.V)
+			sameState := false
+			if fa, ok := tV.V.(*ssa.FieldAddr); ok {
+				sameState = (an.FV{V: fa.X, F: tV.F}).Resolve(nil).V == stateV
 			}
-			if !strings.HasPrefix(tDesc, stateDesc+".") {
+			if !sameState {
 				r.Violation(key, an.Pos(c, reset.Instr), "Reset is applied to %s but the runner receives %s", tDesc, stateDesc)
 				continue
 			}
-			fu, ok := an.Strip(reset.Translate(reset.Call().Common().Args[1])).(*ssa.Call)
+			fuV := an.EventFV(*reset, reset.Call().Common().Args[1]).Resolve(nil)
+			fu, ok := fuV.V.(*ssa.Call)
 			okID := ok && an.IsFunc(an.Callee(fu), "strconv", "FormatUint")
 			if okID {
-				ex, isEx := an.Strip(reset.Translate(fu.Call.Args[0])).(*ssa.Extract)
+				ex, isEx := (an.FV{V: fu.Call.Args[0], F: fuV.F}).Resolve(isNextIteration).V.(*ssa.Extract)
 				base, isK := fu.Call.Args[1].(*ssa.Const)
 				okID = isEx && ex.Tuple == ssa.Value(next) && ex.Index == 0 && isK && base.Int64() == 10
 			}
@@ -347,10 +369,12 @@ func c03(c *core.Ctx, r *core.Report) {
 			panic(core.AnchorError{What: "iteration runner"})
 		}
 		n := 0
-		runs, _ := workerRuns(c, runner)
-		for _, wr := range runs {
-			fn := wr.Worker
-			s := wr.Run.Root()
+		for _, fn := range allocHolders(c) {
+			// the instructions of fn through which the runner is reached
+			var runSites []ssa.Instruction
+			for _, e := range an.FlatCalls(fn, flatDepth, func(_ ssa.CallInstruction, t *ssa.Function) bool { return t == runner }) {
+				runSites = append(runSites, e.Root())
+			}
 			for _, call := range an.AllCalls(fn) {
 				if !isNextIteration(an.Callee(call)) {
 					continue
@@ -377,8 +401,13 @@ func c03(c *core.Ctx, r *core.Report) {
 						errSucc = b.Succs[1]
 					}
 					n++
-					// search from errSucc for the runner call avoiding the allocator
-					reach := reachesAvoiding(errSucc, s, call)
+					// search from errSucc for a runner call avoiding the allocator
+					reach := false
+					for _, s := range runSites {
+						if reachesAvoiding(errSucc, s, call) {
+							reach = true
+						}
+					}
 					r.Check(!reach, core.FuncName(fn)+"#refused", an.Pos(c, iff), "the refused branch cannot reach the runner call without a new allocation", "the branch taken when the id is refused still reaches the runner call: more than max-iterations iterations run")
 				}
 			}
@@ -390,14 +419,7 @@ func c03(c *core.Ctx, r *core.Report) {
 			panic(core.AnchorError{What: "iteration runner"})
 		}
 		n := 0
-		seenFn := map[*ssa.Function]bool{}
-		runs, _ := workerRuns(c, runner)
-		for _, wr := range runs {
-			fn := wr.Worker
-			if seenFn[fn] {
-				continue
-			}
-			seenFn[fn] = true
+		for _, fn := range allocHolders(c) {
 			for _, call := range an.AllCalls(fn) {
 				nv, ok := call.(*ssa.Call)
 				if !ok || !isNextIteration(an.Callee(call)) {
@@ -442,6 +464,24 @@ func c03(c *core.Ctx, r *core.Report) {
 		r.Floor("successful-allocation branches", n, 2)
 	})
 	_ = types.Typ
+}
+
+// allocHolders lists the functions of internal/workers that call the id allocator (the worker loops, or the
+// helpers they run one pass with).
+func allocHolders(c *core.Ctx) []*ssa.Function {
+	var out []*ssa.Function
+	for _, fn := range c.AllFuncs {
+		if core.RelPkg(fn) != "internal/workers" {
+			continue
+		}
+		for _, call := range an.AllCalls(fn) {
+			if isNextIteration(an.Callee(call)) {
+				out = append(out, fn)
+				break
+			}
+		}
+	}
+	return out
 }
 
 // reachesAvoiding: can control flow from the start of block `from` reach instruction target without
